@@ -311,6 +311,14 @@ example :
       [.saveSubset [1, 2] 0, .saveClusters [3, 3, 3, 3], .close, .reload])).bind
       (fun st => C03.getSpikeWaveforms st [2, 1] [1, 2] 2) =
     some [[[16, 0], [22, 0]], [[0, 6], [0, 12]]] := by decide
+-- an export over SEVERAL chunks (`exFixed.chunks = [(0, 3), (3, 4)]`): spike 1 lies in the first chunk, spikes 2 and 3 in the
+-- second one, where their positions in the chunk (0, 1) are not their rows in the selection (1, 2) and the rows of the
+-- channel table differ (template 0: channels 2, 0; template 1: channel 1 and a −1 column): every stored window is cut on
+-- the channel row of ITS spike (`iter_waveforms` restricts the channel table to the chunk, traces.py:653)
+example :
+    (storeView (run exRender (fun x => x) ⟨[(none, [0, 1, 0, 1])], [], none, exFixed⟩ [.saveSubset [1, 2, 3] 0, .reload])).map
+      (fun st => (st.spikeChannels, st.waveforms)) =
+    some ([[2, 0], [1, -1], [2, 0]], [[[3, 1], [6, 4]], [[8, 0], [11, 0]], [[9, 7], [12, 10]]]) := by decide
 -- a session that STARTS with the store of an earlier session's export (`SubsetFromExport`), and an export over it
 example :
     let old := C03.saveSubset (fun x : Int => 2 * x) exFixed.raw exFixed.chunks exFixed.spikeSamples
